@@ -315,3 +315,72 @@ def _to_pandas(ex, st, base, node, basenode):
     n = ex.seq_len(base)
     idx = ex.new_seq(st, INT, n, lambda j: j, "nd", "rangeindex")
     return SV(RECORD, py={"rows": base, "index": idx})
+
+
+# ------------------------------------------------------------------------------------------------------------
+# Ghost file system (DESIGN.md 2.4): env["FS"] : map[str, list[str]]  (path -> lines).  open(p, 'r') is an
+# iterator over FS[p]; open(p, 'w') starts an empty line list, open(p, 'a') starts from FS[p]; leaving the
+# `with` block stores the written lines back; shutil.move(src, dst) makes dst hold what src held.
+from .types import TMap, TIter  # noqa: E402
+
+LINES = TSeq(STR, "list")
+
+
+def _fs(st):
+    fs = st.env.get("FS")
+    if fs is None or not isinstance(fs.t, TMap):
+        raise Unsupported("no ghost file system `FS` declared (free={'FS': 'map[str,list[str]]'})")
+    return fs
+
+
+def _with_item(self, ex, st, it):
+    ce = it.context_expr
+    if isinstance(ce, ast.Call) and isinstance(ce.func, ast.Name) and ce.func.id == "open" and \
+            isinstance(it.optional_vars, ast.Name):
+        path = ex.ev(st, ce.args[0])
+        mode = "r"
+        if len(ce.args) > 1 and isinstance(ce.args[1], ast.Constant):
+            mode = ce.args[1].value
+        for kw in ce.keywords:
+            if kw.arg == "mode" and isinstance(kw.value, ast.Constant):
+                mode = kw.value.value
+        fs = _fs(st)
+        content = SV(LINES, z3.Select(fs.z, path.z))
+        ex.used_lib.add("open(path, mode): 'r' iterates over the lines of the file; 'w' truncates; 'a' appends to "
+                        "the existing content; the content is in place when the with-block is left (ghost FS)")
+        name = it.optional_vars.id
+        if "r" in mode and "+" not in mode:
+            st.env[name] = SV(TIter(STR), py={"seq": content, "pos": z3.IntVal(0)})
+        elif "w" in mode:
+            st.env[name] = ex.seq_lit(st, [], STR, "list")
+            st.env["__open_" + name] = path
+        elif "a" in mode:
+            ex.assume(st, LINES.len(content.z) >= 0)
+            st.env[name] = content
+            st.env["__open_" + name] = path
+        else:
+            raise Unsupported("open mode %r" % mode)
+        return True
+    return False
+
+
+def _with_exit(self, ex, st, it):
+    if isinstance(it.optional_vars, ast.Name):
+        name = it.optional_vars.id
+        p = st.env.pop("__open_" + name, None)
+        if p is not None and name in st.env:
+            fs = _fs(st)
+            st.env["FS"] = SV(fs.t, z3.Store(fs.z, p.z, st.env[name].z))
+    return None
+
+
+Lib.with_item = _with_item
+Lib.with_exit = _with_exit
+
+
+@libfn("shutil.move", stmt="shutil.move(src, dst): afterwards dst holds what src held (src is gone)")
+def _move(ex, st, node):
+    src, dst = ex.ev(st, node.args[0]), ex.ev(st, node.args[1])
+    fs = _fs(st)
+    st.env["FS"] = SV(fs.t, z3.Store(fs.z, dst.z, z3.Select(fs.z, src.z)))
+    return SV(NONE)
